@@ -458,17 +458,19 @@ class Stat2(nnx.Variable):
 
 
 EXPLANATION = (
-    'C08 slice: StateAxes.map_prefix (first matching filter) and '
+    'C08: StateAxes.map_prefix (first matching filter) and '
     'extract.check_consistent_aliasing on the C03 graphs (+1 symbolic aliasing '
-    'edge) for every combination of axis specifications {None,0,1,Carry}; '
-    'nnx.grad wrt / DiffState routing with jax.grad replaced by a structure-'
-    'returning stub.')
+    'edge) for every combination of axis specifications {None,0,1,Carry}; nnx.grad '
+    'wrt / DiffState routing; nnx.vmap == per-index calls, nnx.scan == Python loop, '
+    'nnx.grad == hand-derived gradient on symbolic int values.')
 ASSUMPTIONS = (
-    'equality of nnx.vmap / scan / grad results with the per-index loop, the scan '
-    'loop and jax.grad numerics is implemented by JAX (vmap, lax.scan, AD) and is '
-    'NOT covered; only flax-side routing is decided',
-    'jax.grad / value_and_grad replaced in flax.nnx.transforms.autodiff by a stub '
-    'that calls the function once and returns the differentiated argument',
+    'jax.vmap / jax.lax.scan / jnp.moveaxis are replaced in '
+    'flax.nnx.transforms.iteration by reference implementations on an int-array '
+    'stand-in (slice along in-axes, call once per index, stack along out-axes; the '
+    'documented scan loop); jax.grad / value_and_grad in '
+    'flax.nnx.transforms.autodiff by a structure-returning stub (routing '
+    'obligations) or a one-pass tape AD on symbolic ints (value obligation)',
+    "JAX's own float numerics, split_rngs, transform_metadata, pmap: NOT covered",
     'jax.core.get_opaque_trace_state compat shim installed by the harness process',
 )
 
